@@ -303,6 +303,104 @@ def joinCosts (pred sel : Lam2) (x : Value) (a : Nat) : VL → List (Item × Nat
   { σ := Unit, start := idle (), finish := fun _ => done ()
     step := fun _ x => let r := joinCosts pred sel x 0 other; { st := (), outs := r.1, apps := r.2.1, stop := r.2.2 } }
 
+/-! ### operators seen from a SECONDARY lazy collection argument
+
+The machines above run over the receiver.  `join`, `zip`, `zipLongest`, `concat` / `+`,
+`insertMany`, `replaceMany`, `defaultIfEmpty` and the result of a `selectMany` selector take a
+further lazy collection; here the machine runs over THAT collection and the receiver (and the
+other collection arguments) are constants. -/
+
+/-- rows of `join` for the outer elements `xs` against a completely known inner list -/
+def joinRest (pred sel : Lam2) (memo : VL) (a : Nat) : VL → List (Item × Nat) × Nat × Bool
+  | [] => ([], a, false)
+  | x :: xs =>
+    let r := joinCosts pred sel x a memo
+    if r.2.2 then r
+    else
+      let t := joinRest pred sel memo r.2.1 xs
+      (r.1 ++ t.1, t.2.1, t.2.2)
+
+/-- `outer.join(S, pred, sel)` over `S`: `collection2 = utils.memorize(collection2)`.  While the
+    rows of the FIRST outer element are made `S` is pulled on demand (one predicate application
+    per pulled element, a selector application when it holds); only when `S` is exhausted do
+    the later outer elements come, and they replay the memo.  No outer element: `S` is never
+    touched. -/
+@[reducible] def mJoinInner (outer : VL) (pred sel : Lam2) : Machine :=
+  { σ := VL                       -- what has been pulled so far, newest first
+    start := match outer with
+      | [] => done []
+      | _ :: _ => idle []
+    finish := fun memo =>
+      let r := joinRest pred sel memo.reverse 0 outer.tail
+      { st := memo, outs := r.1, apps := r.2.1, stop := true }
+    step := fun memo y =>
+      let r := joinCosts pred sel (outer.headD null) 0 [y]
+      { st := y :: memo, outs := r.1, apps := r.2.1, stop := r.2.2 } }
+
+/-- `zip(before.., S, after..)` over `S`: builtin `zip` asks the collections in argument order for
+    every row, so `S` is asked for row `i` only if every collection in front of it has an element
+    `i`; if one behind it has none, the pulled element is lost. -/
+@[reducible] def mZipAt (before after : List VL) : Machine :=
+  { σ := Nat
+    start := if before.all (fun o => 0 < o.length) then idle 0 else done 0
+    finish := fun s => done s
+    step := fun i y =>
+      if after.all (fun o => i < o.length) then
+        { st := i + 1
+          outs := oks [tuple (before.map (fun o => o.getD i null) ++ y :: after.map fun o => o.getD i null)] 0
+          stop := !before.all (fun o => i + 1 < o.length) }
+      else done i }
+
+def longest (ls : List VL) : Nat := ls.foldl (fun n o => max n o.length) 0
+
+/-- `zipLongest(before.., S, after.., default => fill)` over `S`: a row per pulled element; when
+    `S` ends the remaining rows of the longer constant collections follow without a pull. -/
+@[reducible] def mZipLongestAt (before after : List VL) (fill : Value) : Machine :=
+  { σ := Nat, start := idle 0
+    finish := fun i =>
+      { st := i, stop := true
+        outs := oks ((List.range (longest (before ++ after) - i)).map fun d =>
+          tuple (before.map (fun o => o.getD (i + d) fill) ++ fill :: after.map fun o => o.getD (i + d) fill)) 0 }
+    step := fun i y =>
+      { st := i + 1
+        outs := oks [tuple (before.map (fun o => o.getD i fill) ++ y :: after.map fun o => o.getD i fill)] 0 } }
+
+/-- a lazy collection spliced between two constant runs: `head` is produced before the first
+    pull, the elements are handed on, `tail` follows at exhaustion.  `tail = none`: the lazy
+    collection is never asked for anything. -/
+@[reducible] def mSplice (head : VL) (tail : Option VL) : Machine :=
+  { σ := Unit
+    start := { st := (), outs := oks head 0, stop := tail.isNone }
+    finish := fun _ => { st := (), outs := oks (tail.getD []) 0, stop := true }
+    step := fun _ y => { st := (), outs := oks [y] 0 } }
+
+/-- `before.concat(.., S, ..after)` / `left + S` -/
+def spliceConcat (before after : List VL) : VL × Option VL := (before.flatten, some after.flatten)
+
+/-- `xs.insertMany(pos, S)`: in front of everything (negative position), in front of element
+    `pos`, or at the end -/
+def spliceInsertMany (xs : VL) (pos : Int) : VL × Option VL :=
+  let p := if pos < 0 then 0 else min pos.toNat xs.length
+  (xs.take p, some (xs.drop p))
+
+/-- `xs.replaceMany(pos, S, count)`: `S` stands in for the first element of the addressed range,
+    the other elements of the range vanish; a range that meets no element never asks `S` -/
+def spliceReplaceMany (pos count : Int) (i : Nat) : VL → VL × Option VL
+  | [] => ([], none)
+  | x :: xs =>
+    if inRange pos count i then ([], some (deleteFrom pos count (i + 1) xs))
+    else let r := spliceReplaceMany pos count (i + 1) xs; (x :: r.1, r.2)
+
+/-- `xs.defaultIfEmpty(S)` hands `S` out untouched when `xs` is empty and never looks at it otherwise -/
+def spliceDefault (xs : VL) : VL × Option VL := if xs.isEmpty then ([], some []) else (xs, none)
+
+/-- `[x].selectMany(λ. S)` over `S`: one application of the selector, then `yield from` its result -/
+@[reducible] def mSelectManyInner (nonEmpty : Bool) : Machine :=
+  { σ := Unit
+    start := if nonEmpty then { st := (), apps := 1 } else done ()
+    finish := fun _ => done ()
+    step := fun _ y => { st := (), outs := oks [y] 0 } }
+
 /-- the machine of an operation of the C13 catalogue (`none`: not a streaming operator) -/
 def machineOf : Op → Option Machine
   | .select f => some (mSelect f)
